@@ -27,7 +27,7 @@ for seed in seeds:
             continue
         have.add(k)
         rep = r["replay"]
-        small = {x: rep[x] for x in rep if x in ("isa", "mode", "bytes", "stage", "error", "module", "kind", "consumed", "tail", "history", "call", "format")}
+        small = {x: rep[x] for x in rep if x in ("isa", "mode", "bytes", "stage", "error", "module", "kind", "consumed", "tail", "history", "call", "format", "executed_before_on_the_same_map")}
         kf["findings"].append({"status": "known", "property": pid, "key": r["key"], "what": r["what"][:200], "example": small})
         added += 1
     print("seed", seed, "total known for", pid, sum(1 for f in kf["findings"] if f["property"] == pid), "added so far", added)
